@@ -2,8 +2,8 @@
    Only statements; proofs by reference.  Model: model/Ingest.v (one insert worker), model/PushHandler.v (all
    workers, promise store, HTTP push handlers with retry); monitors: model/IngestSpec.v. *)
 From Coq Require Import List NArith ZArith Bool.
-From Qryn Require Import model.Ingest model.PushHandler model.IngestSpec proofs.IngestBase proofs.IngestAck
-  proofs.IngestSpecProofs proofs.IngestHandler proofs.IngestDrain.
+From Qryn Require Import model.Ingest model.PushHandler model.IngestSpec model.IngestSched proofs.IngestBase proofs.IngestAck
+  proofs.IngestSpecProofs proofs.IngestHandler proofs.IngestDrain proofs.IngestLive proofs.IngestLiveAll.
 Import ListNotations.
 
 (* For every configuration (workers of any kind / round-robin group / maxQueueSize, retry count), every
@@ -91,3 +91,34 @@ Theorem can_always_drain : forall k g mq tr s vs,
                     (match inflight s with Some po => p_res po | None => [] end ++ results s).
 Proof. intros k g mq tr s vs _ Hrun. now apply svc_can_always_drain. Qed.
 Print Assumptions can_always_drain.
+
+(* The same lifted to the whole system -- all workers, the promise store and the HTTP handlers doParse / doPush with
+   their retries.  next_act db (model/IngestSched.v) is a scheduler that only takes steps of the system itself (the
+   flush timer / PlanFlush, dial, swapBuffers, the call of Do, the return of a Do with the outcome db chooses,
+   doParse receiving an item, a doPush goroutine starting an attempt or returning from Get(), doParse answering): no
+   new push, no new direct request.  In every state reachable by a trace without Stop in which every sub-request is
+   routed to an existing service and does not make ProcessRequest panic, for EVERY policy db of INSERT outcomes (the
+   database may refuse every INSERT: the retries run out), the step it picks is enabled and decreases the variant mu;
+   and when it picks nothing, every push has its answer, every sub-push its result and every worker is empty. *)
+Theorem scheduler_never_stuck : forall cfg n tr g es (db : gstate -> nat -> bool),
+  grun (ginit cfg n) tr = Some (g, es) -> forallb (act_live (sig_of_cfg cfg)) tr = true ->
+  match next_act db g with
+  | Some a => internal a = true /\ act_live (sig_of_cfg cfg) a = true /\
+              (forall s ok, a = GSvc s (SDoReturn ok) -> ok = db g s) /\
+              exists g' es', gstep g a = Some (g', es') /\ (mu g' < mu g)%nat
+  | None => all_done g = true
+  end.
+Proof. intros cfg n tr g es db Hrun Hl. apply sched_progress. eapply reachable_PI; eauto. Qed.
+Print Assumptions scheduler_never_stuck.
+
+(* Hence: from every such state there is a schedule tr' of at most mu g steps of the system itself, following the
+   database policy db, after which everything is finished (all_done), and in the event log of the whole run every
+   push that had arrived has EXACTLY ONE answer event (one_answer: no schedule can produce a second one). *)
+Theorem every_push_is_answered_exactly_once : forall cfg n tr g es (db : gstate -> nat -> bool),
+  grun (ginit cfg n) tr = Some (g, es) -> forallb (act_live (sig_of_cfg cfg)) tr = true ->
+  exists tr' g' es',
+    grun g tr' = Some (g', es') /\ forallb internal tr' = true /\ follows db g tr' = true /\ (length tr' <= mu g)%nat /\
+    all_done g' = true /\ length (hs g') = length (hs g) /\
+    forall h, (h < length (hs g))%nat -> count_occ Nat.eq_dec (answered (es ++ es')) h = 1%nat.
+Proof. exact every_push_answered_once. Qed.
+Print Assumptions every_push_is_answered_exactly_once.
